@@ -583,6 +583,13 @@ func (b *BaseStore) Load(ctx context.Context, amount int) error {
 
 			span.AddEvent("store-head-loaded")
 
+			if foreignHead(l, oplog.GetID()) {
+				// a cached head written for another log must not be merged
+				span.AddEvent("store-head-foreign-log")
+				b.Logger().Warn("cached head belongs to another log and was discarded", zap.String("cid", h.GetHash().String()))
+				return
+			}
+
 			// Join keeps the `size` most recent entries and slices out of bounds when the
 			// joined log holds fewer: only hand it a size the joined log can satisfy
 			size := amount
@@ -862,6 +869,10 @@ func (b *BaseStore) LoadFromSnapshot(ctx context.Context) error {
 		return fmt.Errorf("unable to load log: %w", err)
 	}
 
+	if foreignHead(log, b.OpLog().GetID()) {
+		return fmt.Errorf("unable to join log: snapshot contains a head written for another log")
+	}
+
 	if _, err = b.OpLog().Join(log, -1); err != nil {
 		return fmt.Errorf("unable to join log: %w", err)
 	}
@@ -873,6 +884,19 @@ func (b *BaseStore) LoadFromSnapshot(ctx context.Context) error {
 	}
 
 	return nil
+}
+
+// foreignHead tells whether one of the heads of a fetched log was written for a
+// log other than id. ipfslog's Join leaves such entries out of the entry set, but
+// merges the other log's heads unfiltered, so they would become heads of this log.
+func foreignHead(l ipfslog.Log, id string) bool {
+	for _, h := range l.RawHeads().Slice() {
+		if h.GetLogID() != id {
+			return true
+		}
+	}
+
+	return false
 }
 
 func intPtr(i int) *int {
@@ -1016,6 +1040,12 @@ func (b *BaseStore) replicationLoadComplete(ctx context.Context, logs []ipfslog.
 	b.Logger().Debug("replication load complete")
 	entries := []ipfslog.Entry{}
 	for _, log := range logs {
+		if foreignHead(log, oplog.GetID()) {
+			// Join merges the heads of the other log without looking at their log id
+			b.Logger().Warn("fetched entry belongs to another log and was discarded")
+			continue
+		}
+
 		_, err := oplog.Join(log, -1)
 		if err != nil {
 			// a rejected log must not keep the other fetched logs from being joined
